@@ -88,6 +88,26 @@ def c14():
     for api, ks in key_of_api.items():
         if len(ks - {"n/a"}) > 1:
             bad.append(f"api {api} has several keys {ks}")
+    # what the version PACKAGE publishes (from kio.schema.<api>.v<N> import XRequest, XResponse) is the top-level class of the
+    # sibling module of that version, the very object - and nothing else
+    by_pkg: dict[str, dict[str, type]] = {}
+    for mod, classes in walk():
+        m = MOD_RE.match(mod.__name__)
+        if not m:
+            continue
+        tops = [c for c in classes if getattr(c, "__type__", None) is not EntityType.nested]
+        if len(tops) == 1:
+            by_pkg.setdefault(mod.__name__.rsplit(".", 1)[0], {})[tops[0].__name__] = tops[0]
+    for pkg_name, tops in by_pkg.items():
+        pkg = importlib.import_module(pkg_name)
+        published = {n: getattr(pkg, n, None) for n in getattr(pkg, "__all__", ())}
+        for n, obj in published.items():
+            if tops.get(n) is not obj:
+                bad.append(f"{pkg_name}.{n} is {getattr(obj, '__module__', '?')}.{getattr(obj, '__qualname__', '?')}, "
+                           f"not the top-level class of {pkg_name}'s own modules")
+        for n in tops:
+            if n not in published:
+                bad.append(f"{pkg_name} does not publish {n}")
     return bad
 
 
